@@ -1,6 +1,15 @@
 #include <atomic>
 #include "../../include/rtosc/thread-link.h"
 
+#ifdef RTOSC_VERIF
+//Verification hook (off unless built with -DRTOSC_VERIF): called immediately
+//before each access to state shared between the writer and the reader thread
+extern "C" { void (*rtosc_verif_point)(int) = 0; }
+#define RTOSC_VERIF_POINT(id) do { if(rtosc_verif_point) rtosc_verif_point(id); } while(0)
+#else
+#define RTOSC_VERIF_POINT(id) do { } while(0)
+#endif
+
 namespace rtosc {
 #ifdef off_t
 #undef off_t
@@ -25,6 +34,7 @@ typedef internal_ringbuffer_t ringbuffer_t;
 
 static size_t ring_read_size(ringbuffer_t *ring, bool lookahead)
 {
+    RTOSC_VERIF_POINT(1);
     const size_t w = ring->write;
     const size_t r = lookahead ? ring->read_lookahead : ring->read;
 
@@ -34,6 +44,7 @@ static size_t ring_write_size(ringbuffer_t *ring)
 {
     //leave one forbidden element
     const size_t w = ring->write;
+    RTOSC_VERIF_POINT(2);
     const size_t r = ring->read;
     if(r == w)
         return ring->size - 1;
@@ -48,11 +59,15 @@ static void ring_write(ringbuffer_t *ring, const char *data, size_t len)
     if(next_write < ring->write) {
         const size_t w1 = ring->size - ring->write;
         const size_t w2 = len - w1;
+        RTOSC_VERIF_POINT(3);
         memcpy(ring->buffer+ring->write, data,    w1);
+        RTOSC_VERIF_POINT(4);
         memcpy(ring->buffer,             data+w1, w2);
     } else { //contiguous
+        RTOSC_VERIF_POINT(3);
         memcpy(ring->buffer+ring->write, data, len);
     }
+    RTOSC_VERIF_POINT(5);
     ring->write = next_write;
 }
 static void ring_read(ringbuffer_t *ring, char *data, size_t len, bool lookahead)
@@ -65,11 +80,15 @@ static void ring_read(ringbuffer_t *ring, char *data, size_t len, bool lookahead
     if(next_read < read) {
         const size_t r1 = ring->size - read;
         const size_t r2 = len - r1;
+        RTOSC_VERIF_POINT(6);
         memcpy(data,    ring->buffer+read, r1);
+        RTOSC_VERIF_POINT(7);
         memcpy(data+r1, ring->buffer,      r2);
     } else { //contiguous
+        RTOSC_VERIF_POINT(6);
         memcpy(data, ring->buffer+read, len);
     }
+    RTOSC_VERIF_POINT(8);
     if (lookahead)
         ring->read_lookahead = next_read;
     else
@@ -183,6 +202,7 @@ bool ThreadLink::hasNextLookahead(void) const
 msg_t ThreadLink::read(bool lookahead) {
     ring_t r[2];
     ring_read_vector(ring,r,lookahead);
+    RTOSC_VERIF_POINT(9);
     const size_t len =
         rtosc_message_ring_length(r);
     assert(ring_read_size(ring, lookahead) >= len);
